@@ -133,6 +133,8 @@ class AioImpl:
             a = record.args[0] if isinstance(record.args, tuple) else record.args
             jid = self.job_id(a)
         self.events.append("EV log %d" % jid)
+        if record.levelno < logging.ERROR or record.exc_info is None:
+            self.events.append("EV not-an-error-record %d level=%d" % (jid, record.levelno))
         job = self.jobs.get(jid)
         if job is not None and job.failed_attempts > job.attempts:
             self.events.append("EV counters %d failed=%d attempts=%d" % (jid, job.failed_attempts, job.attempts))
